@@ -49,7 +49,7 @@ var volumeMeasurementBits = []bit{
 func TestMain(m *testing.M) {
 	vcore.Init("C19", "exploration",
 		"exhaustive over flag words: all 2^16 apply-action values in 1- and 2-octet form (plus 3-octet and empty inputs), reporting triggers all 2^16 in 2-octet form and "+
-			"2^18 structured + random (quick) / all 2^24 (thorough) in 3-octet form, every usage-report-trigger single bit, all pairs and random words, all 64 volume-measurement subsets x MNOP; "+
+			"2^18 structured + random (quick) / all 2^24 (thorough) in 3-octet form, every usage-report-trigger single bit, all pairs and random words, all 64 volume-measurement subsets x MNOP x every subset of the six counters being zero; "+
 			"oracle = octet/bit table transcribed from TS 29.244 8.2.26/8.2.19/8.2.41/8.2.13, cross-checked at start-up against go-pfcp's independent Has*() accessors; every Apply Action / Reporting Triggers value is decoded from a slice of its own and from inside a longer buffer (0xff octets behind it, as a value inside a received message has the next IE behind it), with equal results. "+
 			"Causes are also followed along the delivery path: REPORT netlink messages with 1-8 usage reports, each with its own single cause (every ordered pair exhaustively, longer messages at random, one or several sessions), multicast by the simulated kernel to the real listener of the real driver; "+
 			"each report must reach the report handler with the usage-report trigger of its own cause and no other. "+
@@ -296,7 +296,15 @@ func check(c Case) *vcore.Violation {
 			}
 		}
 	case "vol":
-		m := report.VolumeMeasure{TotalVolume: 1, UplinkVolume: 2, DownlinkVolume: 3, TotalPktNum: 4, UplinkPktNum: 5, DownlinkPktNum: 6}
+		// Word says which of the six counters are zero (bit i = counter i): an idle measurement period has all-zero counters, and
+		// the flags say which fields are there, not which are non-zero
+		val := func(i int) uint64 {
+			if c.Word&(1<<uint(i)) != 0 {
+				return 0
+			}
+			return uint64(i + 1)
+		}
+		m := report.VolumeMeasure{TotalVolume: val(0), UplinkVolume: val(1), DownlinkVolume: val(2), TotalPktNum: val(3), UplinkPktNum: val(4), DownlinkPktNum: val(5)}
 		m.Flags = c.Bytes[0]
 		m.SetFlags(c.MNOP)
 		f, err := m.IE().VolumeMeasurement()
@@ -311,7 +319,7 @@ func check(c Case) *vcore.Violation {
 		for _, b := range volumeMeasurementBits {
 			w := exp&(1<<(b.bit-1)) != 0
 			if got := f.Flags&(1<<(b.bit-1)) != 0; got != w {
-				return vcore.Violatef("vol-"+b.name, "VolumeMeasure flags %#x mnop=%v: encoded flag %s=%v want %v", c.Bytes[0], c.MNOP, b.name, got, w)
+				return vcore.Violatef("vol-"+b.name, "VolumeMeasure flags %#x mnop=%v (counters zero: mask %#x): encoded flag %s=%v want %v", c.Bytes[0], c.MNOP, c.Word, b.name, got, w)
 			}
 		}
 		type fv struct {
@@ -319,8 +327,8 @@ func check(c Case) *vcore.Violation {
 			got  uint64
 			w    uint64
 		}
-		for _, x := range []fv{{"TOVOL", f.TotalVolume, 1}, {"ULVOL", f.UplinkVolume, 2}, {"DLVOL", f.DownlinkVolume, 3},
-			{"TONOP", f.TotalNumberOfPackets, 4}, {"ULNOP", f.UplinkNumberOfPackets, 5}, {"DLNOP", f.DownlinkNumberOfPackets, 6}} {
+		for _, x := range []fv{{"TOVOL", f.TotalVolume, val(0)}, {"ULVOL", f.UplinkVolume, val(1)}, {"DLVOL", f.DownlinkVolume, val(2)},
+			{"TONOP", f.TotalNumberOfPackets, val(3)}, {"ULNOP", f.UplinkNumberOfPackets, val(4)}, {"DLNOP", f.DownlinkNumberOfPackets, val(5)}} {
 			set := false
 			for _, b := range volumeMeasurementBits {
 				if b.name == x.name {
@@ -511,12 +519,15 @@ func TestC19(t *testing.T) {
 		}
 	}
 	// volume measurement: all 64 subsets x MNOP (and the two spare bits)
+	// ... x every subset of the six counters being zero (an idle measurement period reports zeroes: the flags must not depend on the values)
 	for v := 0; v < 256; v++ {
 		for _, mnop := range []bool{false, true} {
-			c := Case{Kind: "vol", Bytes: []byte{byte(v)}, MNOP: mnop}
-			run(t, c)
-			if v == 0 && mnop {
-				vcore.E.Sample("volume-flags", c)
+			for zero := uint32(0); zero < 64; zero++ {
+				c := Case{Kind: "vol", Bytes: []byte{byte(v)}, MNOP: mnop, Word: zero}
+				run(t, c)
+				if v == 0 && mnop && (zero == 0 || zero == 0x3f) {
+					vcore.E.Sample("volume-flags", c)
+				}
 			}
 		}
 	}
